@@ -249,41 +249,60 @@ def ratsLt : List Rat → List Rat → Bool
   | _, [] => false
   | a :: as, b :: bs => a < b || (a == b && ratsLt as bs)
 
-def showRect (r : Rect Rat) : String := ",".intercalate ((r.lo ++ r.hi).map showRat)
+def v3l (v : V3 Rat) : List Rat := [v.x, v.y, v.z]
+def v3Of (l : List Rat) : V3 Rat := ⟨l.getD 0 0, l.getD 1 0, l.getD 2 0⟩
+
+def showRect (r : Rect Rat) : String := ",".intercalate ((v3l r.lo ++ v3l r.hi).map showRat)
 
 def showRects (rs : List (Rect Rat)) : String :=
-  ";".intercalate ((sortBy (fun a b => ratsLt (a.lo ++ a.hi) (b.lo ++ b.hi)) rs).map showRect)
+  ";".intercalate ((sortBy (fun a b => ratsLt (v3l a.lo ++ v3l a.hi) (v3l b.lo ++ v3l b.hi)) rs).map showRect)
 
-def showSplits (ss : List (List Rat)) : String :=
-  "|".intercalate (ss.map fun xs => ",".intercalate (xs.map showRat))
+def showSplits (ss : V3 (List Rat)) : String :=
+  "|".intercalate ([ss.x, ss.y, ss.z].map fun xs => ",".intercalate (xs.map showRat))
 
-partial def runOps (s : RS Rat) : Nat → List String → Option (RS Rat × List String)
-  | 0, ws => some (s, ws)
-  | k + 1, op :: ws => do
+/-- `k` operations from the token stream: `a|r <6 coords>` (Add / Remove) or
+`A|R <k'> <k' operations>` (AddRectSet / RemoveRectSet of the set those operations build). -/
+partial def parseHist (h : Hist Rat) : Nat → List String → Option (Hist Rat × List String)
+  | 0, ws => some (h, ws)
+  | k + 1, op :: ws =>
+    if op = "a" || op = "r" then do
       let (c, ws) ← takeRats 6 ws
-      let r : Rect Rat := ⟨c.take 3, c.drop 3⟩
-      let s' ← if op = "a" then some (s.add r) else if op = "r" then some (s.remove r) else none
-      runOps s' k ws
+      let r : Rect Rat := ⟨v3Of (c.take 3), v3Of (c.drop 3)⟩
+      parseHist (if op = "a" then .add h r else .remove h r) k ws
+    else if op = "A" || op = "R" then do
+      let k' :: ws := ws | none
+      let k' ← k'.toNat?
+      let (h1, ws) ← parseHist .new k' ws
+      parseHist (if op = "A" then .addSet h h1 else .removeSet h h1) k ws
+    else none
   | _, _ => none
 
-/-- `rs <nops> (a|r <6 coords>)… <nq> (<3 coords>)…` → `R=<rects> S=<splits> Q=<answers>`;
+/-- A point is generic for a history when none of its coordinates is a coordinate of a box of
+the history (it lies on no plane the history can ever split at). -/
+def generic (h : Hist Rat) (p : V3 Rat) : Bool :=
+  h.boxes.all fun r => [0, 1, 2].all fun i => p.get i != r.lo.get i && p.get i != r.hi.get i
+
+/-- `rs <nops> <ops> <nq> (<3 coords>)…` → `R=<rects> S=<splits> Q=<answers>`;
 the answers are the SPEC (some rect of the current set contains the point). -/
 def handleRS (ws : List String) : Option String := do
   let nops :: ws := ws | none
   let nops ← nops.toNat?
-  let (s, ws) ← runOps RS.empty nops ws
+  let (h, ws) ← parseHist .new nops ws
+  let s := h.eval
   let nq :: ws := ws | none
   let nq ← nq.toNat?
   let (cs, ws) ← takeRats (3 * nq) ws
   if !ws.isEmpty then none
-  match build (s.rects.length + 2) s with
-  | none => some "diverges"
+  match build (s.rects.length + 1) s with
+  | none => some "diverges"     -- impossible: `build_terminates`
   | some t =>
-    if !t.wellSplitB then some "tree-not-well-split" else
+    if !t.wellSplitB then some "tree-not-well-split" else   -- impossible: `hist_wellSplit`
     let outs := (List.range nq).map fun k =>
-      let p := (cs.drop (3 * k)).take 3
+      let p := v3Of ((cs.drop (3 * k)).take 3)
       let spec := s.rects.any fun r => r.contains p
-      if t.contains p != spec then "X" else boolStr spec
+      if t.contains p != spec then "X"
+      else if generic h p && h.sem p != spec then "Y"   -- impossible: `rectset_history_solid_eq_union`
+      else boolStr spec
     some s!"R={showRects s.rects} S={showSplits s.splits} Q={"".intercalate outs}"
 
 end RS
